@@ -1,7 +1,7 @@
 (** The template runtime around the rule functions (tree/peg.go.tmpl): parse entry, Execute,
     AST and the tree printer, translatePositions and the fields of the error message. *)
 From Coq Require Import List ZArith Bool Arith.
-From PegV Require Import Spec.Syntax Spec.Peg Model.Machine.
+From PegV Require Import Spec.Syntax Spec.Peg Spec.Tokens Model.Machine.
 Import ListNotations.
 
 (** * Execute: walk the tokens; PegText sets text/begin/end, ActionK runs action K *)
@@ -17,8 +17,6 @@ Fixpoint execute (g : grammar) (ptx : nat) (ts : list tok) (txt : nat * nat) : l
   end.
 
 (** * AST(): the stack algorithm at peg.go.tmpl "func (t *tokens[U]) AST()" *)
-Inductive rose := Rose (t : tok) (kids : list rose).
-
 Fixpoint absorb (t : tok) (stack kids : list rose) : list rose * list rose :=
   match stack with
   | Rose s ks :: rest =>
@@ -37,12 +35,7 @@ Definition ast_stack (ts : list tok) : list rose := fold_left ast_step ts [].
 Definition ast (ts : list tok) : option rose := hd_error (ast_stack ts).
 
 (** the printer: one line per node, depth = nesting, then the node's up-chain, then its next *)
-Fixpoint print_rose (depth : nat) (t : rose) : list (nat * tok) :=
-  match t with
-  | Rose tk kids =>
-      (depth, tk) :: (fix pl (l : list rose) : list (nat * tok) :=
-                        match l with [] => [] | k :: l' => print_rose (S depth) k ++ pl l' end) kids
-  end.
+Definition print_rose := preorder.
 Definition print_tree (ts : list tok) : list (nat * tok) :=
   match ast ts with Some t => print_rose 0 t | None => [] end.
 
